@@ -78,7 +78,7 @@ Definition run_file (v : val) : val :=
                   ++ (let (ob, ok) := summary opolls in
                       (* when the file is truncated under the stream, where the failure lands depends on how the
                          reads are cut: the oracle below states what is required then *)
-                      if (ok =? 0) || truncated then [] else
+                      if (ok =? 0) || truncated || (16777216 <? e - a) then [] else
                       (* (evaluated only here: the extracted code is strict, and a range of gigabytes means 65 536 model polls) *)
                       let (mb, mk) := summary (model_polls [] [] (N.to_nat ((e - a) / 65536) + 4) {| r_start := a; r_end := e; r_reads := 0 |}) in
                       cmp_field F_F_END (VN mk) (VN ok) ++ (if (ok =? 2) && (mk =? 2) then cmp_field F_F_TOTAL (VN mb) (VN ob) else []))
